@@ -8,7 +8,7 @@ Code-following part (`compile`): stone/frontend/ir_generator.py as it is in the 
 
 * `generate_IR`: the passes in their order -- registration of every file, imports, `_populate_type_attributes`,
   `_populate_field_defaults` (only its type tests), `_populate_enumerated_subtypes`, `_populate_route_attributes`
-  (only the three types and `deprecated by`);
+  (the three types and `deprecated by`; `stone_cfg` and the attributes: `compileFull`, the last section of this file);
 * `_add_data_types_and_routes_to_api` with `_create_type` / `_create_alias` / `_create_route` / `_create_annotation*`
   reduced to the name they bind (`item.name in env`), `_check_canonical_name_available` (`FeNames.key`);
 * `_add_imports_to_env`, `_env_imports_namespace` (the import graph is searched depth first);
@@ -100,6 +100,17 @@ structure TypeDecl where
   subtypes : Option (List (String × TRef) × Bool) := none
   deriving DecidableEq, Repr, Inhabited
 
+/-- the value of a route attribute (`attrs` section): a literal (`flt` = the IEEE-754 bits of the double) or a bare
+identifier, which the parser hands over as a tag reference -/
+inductive AVal where
+  | null
+  | bool (b : Bool)
+  | int (n : Int)
+  | flt (bits : Nat)
+  | str (s : String)
+  | tag (t : String)
+  deriving DecidableEq, Repr, Inhabited
+
 structure RouteDecl where
   name : String
   version : Int
@@ -108,6 +119,8 @@ structure RouteDecl where
   error : Option TRef
   /-- `none`; `some none` = `deprecated`; `some (some (name, version))` = `deprecated by name:version` -/
   deprecated : Option (Option (String × Int)) := none
+  /-- the `attrs` section: attribute name, value -/
+  attrs : List (String × AVal) := []
   deriving DecidableEq, Repr, Inhabited
 
 /-- `patch struct S` / `patch union U` / `patch union_closed U`: members to be added to a type declared elsewhere -/
@@ -214,6 +227,8 @@ inductive Err where
   | annotNotExist | annotNotRecognized | aliasAnnotUnsupported
   | deprecatedTwice | omittedTwice | previewTwice | redactorTwice | deprecatedPreview
   | redactorOnAliasRef | redactorAlready | redactorOnUser
+  -- `_validate_stone_cfg`, `Struct.check_attr_repr`, `StructField.check_attr_repr`
+  | cfgRoutes | cfgNotRoute | attrNotSettable | attrValue | attrMissing | attrUnknown
   -- not `InvalidSpec`
   | crash (e : PyExc)     -- an exception of another class
   | outOfFuel             -- the recursion bound of `populate` was hit: no verdict
@@ -1772,5 +1787,139 @@ def denote (rx : String → Bool) (fs : List File) : Option Api := denoteCore rx
 /-- the set of spec files obeys every rule -/
 def Legal (rx : String → Bool) (fs : List File) : Bool :=
   patchesLegal fs && LegalCore rx (mergeFiles fs) && annotsLegal rx (mergeFiles fs)
+
+/-! ## Route attributes: `_populate_route_attributes`
+
+`stone_cfg` is an ordinary namespace for every earlier pass; `_validate_stone_cfg` then takes it out of the API and
+reads the schema of route attributes off it: the struct `Route` (no routes and nothing but that struct may be defined
+there; aliases are allowed), or a struct without fields when there is none.  Every route of every other namespace is
+then checked against `Route.all_fields` (`Struct.check_attr_repr`, `StructField.check_attr_repr`).  In the code this
+happens inside the route pass, before the annotations are validated; the model runs it as a last stage over the
+compiled types (the same verdict, possibly another error when several things are wrong).
+
+The test of one value against the type of its attribute (`<Type>.check_attr_repr` = `<Type>.check` through aliases and
+`Nullable`) is the parameter `vc`: `Model/FeAttrVal.lean` instantiates it with C10's checker. -/
+
+def cfgNs : String := "stone_cfg"
+
+/-- the value test: alias table, type table, their walk bounds, the attribute's type, the value -/
+abbrev ValCk := Look → (Key → Option CType) → Nat → Nat → Ty → AVal → Bool
+
+/-- `_validate_stone_cfg` -/
+def validateCfg (fs : List File) : Except Err Unit :=
+  let ds := declsOf fs cfgNs
+  if !(routeDecls ds).isEmpty then .error .cfgRoutes
+  else if (typeDecls ds).any (fun d => !(d.name == "Route" && d.kind == .struct)) then .error .cfgNotRoute
+  else .ok ()
+
+/-- the fields of a struct and of its ancestors, the root's first -/
+def chainFields (types : Key → Option CType) : Nat → Option Key → Except Err (List CField)
+  | _, none => .ok []
+  | 0, some _ => .error .fuelAncestors
+  | f + 1, some p =>
+    match types p with
+    | none => .error .internal
+    | some c => match chainFields types f c.parent with
+      | .error e => .error e
+      | .ok fs => .ok (fs ++ c.fields)
+
+def fieldOptional (f : CField) : Bool := f.hasDefault || (match f.ty with | .nullable _ => true | _ => false)
+
+/-- `route_schema.all_fields`: required before optional; no field when `stone_cfg` defines no `Route` -/
+def schemaFields (types : Key → Option CType) (fuel : Nat) (fs : List File) : Except Err (List CField) :=
+  if (typeDecls (declsOf fs cfgNs)).isEmpty then .ok [] else
+  match chainFields types fuel (some (cfgNs, "Route")) with
+  | .error e => .error e
+  | .ok l => .ok (l.filter (fun f => !fieldOptional f) ++ l.filter fieldOptional)
+
+/-- `unwrap(t)`: the type under every alias and `Nullable`, and whether a `Nullable` was passed -/
+def unwrapN (look : Look) : Nat → Ty → Except Err (Option Ty × Bool)
+  | fuel, t =>
+    let n := match t with | .nullable _ => true | _ => false
+    match stripNullable t with
+    | .alias k =>
+      (match fuel with
+       | 0 => .error .fuelAlias
+       | f + 1 => match look k with
+         | none => .ok (none, n)
+         | some t' => match unwrapN look f t' with
+           | .error e => .error e
+           | .ok (u, n') => .ok (u, n || n'))
+    | u => .ok (some u, n)
+
+/-- `not is_void_type(t) and (is_primitive_type(t) or is_union_type(t))` -/
+def settable (types : Key → Option CType) : Option Ty → Bool
+  | some (.prim (.list ..)) => false
+  | some (.prim (.map ..)) => false
+  | some (.prim v) => v != .plain .void
+  | some (.user k) => (match types k with | some c => !c.isStruct | none => false)
+  | _ => false
+
+/-- `StructField.check_attr_repr(attrs.pop(field.name, None))` -/
+def attrField (vc : ValCk) (look : Look) (types : Key → Option CType) (fa ft : Nat) (attrs : List (String × AVal))
+    (f : CField) : Except Err Unit :=
+  match unwrapN look fa f.ty with
+  | .error e => .error e
+  | .ok (u, nullable) =>
+    let absent := if f.hasDefault || nullable then .ok () else .error .attrMissing
+    match attrs.lookup f.name with
+    | none => absent
+    | some v =>
+      if nullable && v == .null then absent                 -- `Nullable.check_attr_repr` answers `None`
+      else if !settable types u then .error .attrNotSettable
+      else if !vc look types fa ft f.ty v then .error .attrValue
+      else .ok ()
+
+/-- `route_schema.check_attr_repr(attr_by_name)` -/
+def routeAttrs (vc : ValCk) (look : Look) (types : Key → Option CType) (fa ft : Nat) (schema : List CField)
+    (attrs : List (String × AVal)) : Except Err Unit :=
+  match firstErr (attrField vc look types fa ft attrs) schema with
+  | .error e => .error e
+  | .ok () => if attrs.all (fun a => (schema.map (·.name)).contains a.1) then .ok () else .error .attrUnknown
+
+/-- the routes whose attributes are checked: `stone_cfg` has left the API -/
+def attrsOf : String × Decl → List (String × AVal)
+  | (ns, .route r) => if ns == cfgNs then [] else r.attrs
+  | _ => []
+
+def isRouteOutsideCfg : String × Decl → Bool
+  | (ns, .route _) => ns != cfgNs
+  | _ => false
+
+def checkRouteAttrsG (vc : ValCk) (look : Look) (types : Key → Option CType) (fa ft : Nat) (fs : List File) :
+    Except Err Unit :=
+  match validateCfg fs with
+  | .error e => .error e
+  | .ok () => match schemaFields types ft fs with
+    | .error e => .error e
+    | .ok schema =>
+      firstErr (fun p => routeAttrs vc look types fa ft schema (attrsOf p)) ((allPairs fs).filter isRouteOutsideCfg)
+
+def checkRouteAttrs (vc : ValCk) (fs : List File) (api : Api) : Except Err Unit :=
+  checkRouteAttrsG vc (fun k => api.alias? k) (fun k => api.type? k) (fuelA fs) (fuelT fs) fs
+
+/-- `generate_IR()` with the attributes of routes -/
+def compileFull (rx : String → Bool) (vc : ValCk) (fs : List File) : Except Err Api :=
+  match compile rx fs with
+  | .error e => .error e
+  | .ok api => match checkRouteAttrs vc (mergeFiles fs) api with
+    | .error e => .error e
+    | .ok () => .ok api
+
+/-- the rules for `stone_cfg` and route attributes: `stone_cfg` defines no route and no type but a struct `Route`;
+every attribute a route sets is a field of `Route` or of an ancestor of `Route`; a field without default whose type
+is not nullable is set by every route; a value other than `null` for a nullable attribute is set only for
+attributes whose type (aliases and nullables unfolded) is a primitive type other than Void or a union, and passes the
+value test -/
+def routeAttrsLegal (rx : String → Bool) (vc : ValCk) (fs : List File) : Bool :=
+  isOk (validateCfg fs) &&
+  match schemaFields (typeS rx fs) (fuelT fs) fs with
+  | .error _ => false
+  | .ok schema => ((allPairs fs).filter isRouteOutsideCfg).all fun p =>
+      isOk (routeAttrs vc (aliasS rx fs) (typeS rx fs) (fuelA fs) (fuelT fs) schema (attrsOf p))
+
+/-- the set of spec files obeys every rule, those for route attributes included -/
+def LegalFull (rx : String → Bool) (vc : ValCk) (fs : List File) : Bool :=
+  Legal rx fs && routeAttrsLegal rx vc (mergeFiles fs)
 
 end StoneVerif.FeCompile
